@@ -37,6 +37,34 @@ class BytesRef:
         return "&%r" % (self.sb,)
 
 
+class ByteLoc:
+    """Place of one byte inside a byte container (`bytes[i]`)."""
+
+    def __init__(self, obj, i):
+        self.obj, self.i = obj, i
+
+    def get(self):
+        pos = 0
+        for seg in self.obj.sb.segs:
+            if isinstance(seg, bytes):
+                if self.i < pos + len(seg):
+                    return seg[self.i - pos]
+                pos += len(seg)
+            elif type(seg).__name__ == "SymByte":
+                if self.i == pos:
+                    return seg.bv
+                pos += 1
+            else:
+                break
+        raise Inconclusive("byte %d of symbolic bytes" % self.i)
+
+    def set(self, val):
+        from .sbytes import SBytes as _S, slice_ as _slice, SymByte as _SB
+        s = self.obj.sb
+        one = bytes([val]) if isinstance(val, int) else _S((_SB(val),))
+        self.obj.sb = _slice(s, 0, self.i, None) + one + _slice(s, self.i + 1, s.length(), None)
+
+
 class MutBytesRef:
     """&mut [u8] into a BufObj (window [start, end))."""
     __slots__ = ("buf", "start", "end")
@@ -446,6 +474,11 @@ class Interp:
         return loc
 
     def _seq_len(self, v):
+        if isinstance(v, (BufObj, BytesRef)):
+            ln = v.sb.length()
+            if is_sym(ln):
+                raise Inconclusive("length of symbolic bytes in a constant index")
+            return ln
         if isinstance(v, SliceRef):
             return len(v)
         if isinstance(v, VecObj):
@@ -469,6 +502,13 @@ class Interp:
             if not (0 <= i < len(v.fields)):
                 raise RustPanic("index out of bounds")
             return ElemLoc(v.fields, i)
+        if isinstance(v, (BufObj, BytesRef)):
+            ln = v.sb.length()
+            if is_sym(ln):
+                raise Inconclusive("index into bytes of symbolic length in %s" % frame.func.name)
+            if not (0 <= i < ln):
+                raise RustPanic("index out of bounds: the len is %d but the index is %d" % (ln, i))
+            return ByteLoc(v, i)
         raise Inconclusive("index into %r" % type(v).__name__)
 
     # ------------------------------------------------------------------ operands
